@@ -139,7 +139,9 @@ template <class T> inline void change_values(Choice &c, GMat &G, bool cplx, bool
         if (perm_r && perm_c && G.n > 0) {
             int jj = (int)c.below((unsigned)G.n); int col = -1; for (int j = 0; j < G.n; ++j) if ((*perm_c)[j] == jj) col = j;
             int prow = -1; for (int i = 0; i < G.m; ++i) if ((*perm_r)[i] == jj) prow = i;
-            if (col >= 0) for (auto &e : G.col[col]) if (e.first == prow) { int s = 3 + (int)c.below(single ? 10u : 30u); e.second.re = std::ldexp(e.second.re, -s); e.second.im = std::ldexp(e.second.im, -s); }
+            bool zero_it = c.chance(40);   // the remembered pivot becomes an explicit zero: it must be abandoned whatever the threshold (also u = 0)
+            if (zero_it) what = "remembered pivot zeroed";
+            if (col >= 0) for (auto &e : G.col[col]) if (e.first == prow) { int s = 3 + (int)c.below(single ? 10u : 30u); e.second.re = zero_it ? 0.0 : std::ldexp(e.second.re, -s); e.second.im = zero_it ? 0.0 : std::ldexp(e.second.im, -s); }
         }
         break; }
     default: what = "sign flips"; for (auto &col : G.col) for (auto &e : col) if (c.chance(100)) { e.second.re = -e.second.re; e.second.im = -e.second.im; } break;
@@ -158,6 +160,7 @@ inline bool run_history(Choice &c, Ctx &cx, bool light, unsigned char heapfill, 
     auto pat = gen_pattern(c, n, n, PAT_NONSING, family);
     H.G = gen_values(c, n, n, pat, cplx, single, family, false);
     Opts base = gen_opts(c, n, single, true, false);
+    if (c.chance(20)) base.u = 0.0;   // a legal threshold: "use the remembered / diagonal pivot whenever it is nonzero"
     if (c.chance(140)) { base.tune.stock = false; base.tune.v[0] = 0; base.tune.v[6] = 1 + (int)c.below(2); if (base.tune.v[1] < 1) { base.tune.v[1] = 2; base.tune.v[2] = 1; base.tune.v[3] = 3; base.tune.v[4] = 2; base.tune.v[5] = 2; base.tune.v[7] = 3; } }   // small fill estimate: storage must grow
     H.user_mem = c.chance(70);
     int steps = 2 + (int)c.below(cx.tier > 0 ? 38u : 11u);
@@ -249,7 +252,23 @@ inline bool run_history(Choice &c, Ctx &cx, bool light, unsigned char heapfill, 
             cx.fail("info", tag + fmt(": valid call returned info=%lld", info)); e.lu_live = false; e.teardown(); vf_purge(); return false;
         }
         if (kind != ST_RESOLVE) { H.have_order = true; H.factors_ok = (info == 0 || info == n + 1); if (H.factors_ok) { H.A_of_factors = dense_of(to_comp<T>(H.G, false, nullptr)); H.u_of_factors = o.u; } }
-        if (info >= 1 && info <= n) { cx.label("singular-return"); H.out_digest = dig(H.out_digest, &info, sizeof info); continue; }
+        if (info >= 1 && info <= n) {
+            // "the same guarantees as a fresh factorization of that call's matrix": a re-use step must not report an exactly
+            // zero pivot for a matrix that a fresh factorization with the same options factors comfortably
+            if (!light && (kind == ST_SAMEROW || kind == ST_SAMEPAT) && !maybe_exactly_singular(H.G)) {
+                Expert<T> f; f.init(n, 0, n, n); f.S = to_comp<T>(H.G, base.nr, nullptr); f.B.assign(1, sentinel_value<T>());
+                apply_opts(o, f.so); f.so.Fact = DOFACT; f.so.ConditionNumber = YES; f.so.PivotGrowth = NO; f.so.IterRefine = NOREFINE; f.so.Equil = e.so.Equil;
+                if (base.colperm == MY_PERMC) f.perm_c = base.my_perm_c;
+                f.bind();
+                bool fab = f.call(); long long finfo = f.info; double frc = (double)f.rcond;
+                if (!fab) f.teardown(); else f.lu_live = false;
+                if (!fab && finfo == 0 && frc > (single ? 1e-3 : 1e-8)) {
+                    cx.fail("reuse-reports-singular", tag + fmt(": info=%lld (an exactly zero pivot) although a fresh factorization of the same matrix with the same options succeeds with rcond=%.3g", info, frc));
+                    e.teardown(); vf_purge(); return false;
+                }
+            }
+            cx.label("singular-return"); H.out_digest = dig(H.out_digest, &info, sizeof info); continue;
+        }
         // ---- oracles -----------------------------------------------------------------------------------
         // "identical values" for the pivot-reuse corollary means: the matrix as factored now (after equilibration) is
         // bit-identical to the one the remembered pivots come from
